@@ -106,6 +106,27 @@ func genC13(w *bufio.Writer, tier string, rng *rand.Rand) {
 		}
 		emit(nacc, ops)
 	}
+	// 1b'. the top of the range in which squares are still finite (|x| up to 1.3e154): values in a narrow band
+	// (so that no difference times a count overflows in the incremental formulas), two accumulators, combined
+	for h := 0; h < pick(tier, 150, 4000); h++ {
+		M := []float64{1e153, 4e153, 1e154, 1.3e154, 1e150, -1e154, -1.3e154}[rng.Intn(7)]
+		var ops []string
+		n0, n1 := 1+rng.Intn(12), 1+rng.Intn(12)
+		for i := 0; i < n0+n1; i++ {
+			x := M * (1 + float64(rng.Intn(9)-4)/1024)
+			a := 0
+			if i >= n0 {
+				a = 1
+			}
+			ops = append(ops, add(a, x))
+			if rng.Intn(4) == 0 {
+				ops = append(ops, read(a))
+			}
+		}
+		d := rng.Intn(2)
+		ops = append(ops, read(0), read(1), comb(d, 1-d), read(d), add(d, M), read(d))
+		emit(2, ops)
+	}
 	// 1c. replicas and mirror images: two accumulators of equal count whose data are a permutation of each
 	// other or reflections about a common centre (same mean and spread, different extremes), combined
 	for h := 0; h < pick(tier, 300, 8000); h++ {
